@@ -808,6 +808,11 @@ class Probe:
             return self.apply(self.ev(e["args"][1], env), [recv[1]])
         if m == "unwrap_or_default":
             return "" if recv is None else recv[1]
+        if isinstance(recv, list) and m == "next" and not e["args"]:
+            # a list standing for an iterator: next() takes its first element
+            if not recv:
+                return None
+            return ("some", recv.pop(0))
         if isinstance(recv, list) and m in ("push", "extend", "append", "insert", "pop", "clear", "is_empty"):
             if m == "push":
                 recv.append(self.ev(e["args"][0], env))
